@@ -3,6 +3,7 @@
 # (/tmp/mutlab-<k>), njobs at a time; one line per (seed, check); /repo is never touched.
 cd "$(dirname "$0")/.."
 n=${1:-3}
+rm -f /tmp/labsweep.q* /tmp/labsweep.out*
 python3 - <<'PY' > /tmp/labsweep.list
 import json,glob,os
 for d in sorted(glob.glob('seeded/*/meta.json')):
